@@ -84,6 +84,8 @@ def cases(rng, tier):
         out.append({"t": "cell", "cell": r, "seed": rng.getrandbits(40)})
         if r["req"] == "par" or rng.random() < 0.15:
             out.append({"t": "cell", "cell": r, "seed": rng.getrandbits(40), "reload": True})
+        if r["atf"] == "jwt" and rng.random() < 0.3:
+            out.append({"t": "cell", "cell": r, "seed": rng.getrandbits(40), "short_grant": True})
     return out
 
 
@@ -95,9 +97,10 @@ def _payload(jwt):
         return None
 
 
-def pair_for(cell):
-    """provider and RP configured and registered for the cell (cached per configuration shape; flows are independent sessions)"""
-    key = json.dumps({k: cell[k] for k in ("am", "atf", "rtf", "ialg", "ienc", "ui", "req", "pkce", "rt")}, sort_keys=True)
+def pair_for(cell, short_grant=False):
+    """provider and RP configured and registered for the cell (cached per configuration shape; flows are independent sessions).
+    short_grant: the grant's lifetime (300 s) is BELOW the access token's (600 s) — every view of the token's expiry still is the same one"""
+    key = json.dumps({k: cell[k] for k in ("am", "atf", "rtf", "ialg", "ienc", "ui", "req", "pkce", "rt")}, sort_keys=True) + ("|short" if short_grant else "")
     if key in _pairs:
         return _pairs[key]
     from idpyoidc.server.oauth2.pushed_authorization import PushedAuthorization
@@ -111,7 +114,7 @@ def pair_for(cell):
     extra["authz"] = {"class": AuthzHandling, "kwargs": {"grant_config": {"usage_rules": {
         "authorization_code": {"supports_minting": ["access_token", "refresh_token", "id_token"], "max_usage": 1, "expires_in": 120},
         "access_token": {"expires_in": 600},
-        "refresh_token": {"supports_minting": ["access_token", "refresh_token", "id_token"], "expires_in": 7200}}, "expires_in": 43200}}}
+        "refresh_token": {"supports_minting": ["access_token", "refresh_token", "id_token"], "expires_in": 7200}}, "expires_in": 300 if short_grant else 43200}}}
     if cell["pkce"]:
         extra["add_on"] = {"pkce": {"function": "idpyoidc.server.oauth2.add_on.pkce.add_support", "kwargs": {"essential": False}}}
 
@@ -165,7 +168,7 @@ def impl(c):
     rng = random.Random(c["seed"])
     STATS["cells"] += 1
     clock.CLOCK.t = T0
-    pair = pair_for(cell)
+    pair = pair_for(cell, bool(c.get("short_grant")))
     obs = {"stage": None, "views": {}}
     if pair[0] == "setup-failed":
         obs.update(stage="setup", why=pair[1])
